@@ -413,7 +413,7 @@ STRUCTURE_CONFIGS = {
     ],
     'thorough': [
         ('d2-full', PRIMS, ['GRCh37', 'a b', '`', '1a', ''], ['a', 'a b', '`', '1a', '', 'tstruct'], 2),
-        ('d3', ('int32', 'float64', 'str', 'bool', 'call', 'int64'), ['GRCh37', 'a b'], ['a', 'a b', '`'], 3),
+        ('d3', ('int32', 'float64', 'str', 'bool', 'call', 'int64'), ['GRCh37', 'a b'], ['a', 'a b'], 3),
         ('d3-names3', ('int32', 'str'), ['1a'], ['a', '`', '1a'], 3),
     ],
 }
